@@ -26,24 +26,24 @@ Definition bpms_close (tol : Q) (a b : list (Q * Q * Q)) : bool :=
   forallb2 (fun x y : Q * Q * Q => q_close tol (fst (fst x)) (fst (fst y)) && rel_close (snd (fst x)) (snd (fst y))
                                    && Qeq_bool (snd x) (snd y)) a b.
 
-Definition chart_close (tol : Q) (a b : smchart) : bool :=
+Definition chart_close (cmpb : bool) (tol : Q) (a b : smchart) : bool :=
   text_eqb (c_type a) (c_type b) && text_eqb (c_desc a) (c_desc b) && text_eqb (c_diff a) (c_diff b)
   && (c_meter a =? c_meter b)%Z && list_close tol (c_radar a) (c_radar b)
-  && bpms_close tol (c_bpms a) (c_bpms b)
+  && (negb cmpb || bpms_close tol (c_bpms a) (c_bpms b))
   && simple_close tol (c_hits a) (c_hits b) && hold_close tol (c_holds a) (c_holds b) && hold_close tol (c_rolls a) (c_rolls b)
   && simple_close tol (c_mines a) (c_mines b) && simple_close tol (c_lifts a) (c_lifts b)
   && simple_close tol (c_fakes a) (c_fakes b) && simple_close tol (c_keys a) (c_keys b).
 
-Definition set_close (tol : Q) (a b : smset) : bool :=
+Definition set_close (cmpb : bool) (tol : Q) (a b : smset) : bool :=
   forallb2 text_eqb (s_txt a) (s_txt b)
   && match s_offset a, s_offset b with Some x, Some y => q_close tol x y | None, None => true | _, _ => false end
   && q_close tol (s_sstart a) (s_sstart b) && q_close tol (s_slen a) (s_slen b) && Bool.eqb (s_sel a) (s_sel b)
-  && forallb2 (chart_close tol) (s_maps a) (s_maps b).
+  && forallb2 (chart_close cmpb tol) (s_maps a) (s_maps b).
 
-Definition opt_set_close (tol : Q) (a b : option smset) : bool :=
+Definition opt_set_close (cmpb : bool) (tol : Q) (a b : option smset) : bool :=
   match a, b with
   | None, None => true
-  | Some x, Some y => set_close tol x y
+  | Some x, Some y => set_close cmpb tol x y
   | _, _ => false
   end.
 
